@@ -9,6 +9,6 @@ cd $W || exit 9
 git checkout -q --detach $(git -C /repo rev-parse HEAD) && git checkout -- . && git clean -fdq
 git apply "$P" || { echo "patch does not apply"; exit 9; }
 mkdir -p /tmp/mut-evidence
-cd /verif && VERIF_REPO=$W VERIF_EVIDENCE_DIR=/tmp/mut-evidence ./check $ID > /tmp/try_mut_$ID.log 2>&1; rc=$?
+cd /verif && VERIF_REPO=$W VERIF_EVIDENCE_DIR=/tmp/mut-evidence ./check $ID > /tmp/try_mut_$ID.log 2>&1; rc=$?; [ -n "$3" ] && cp /tmp/try_mut_$ID.log /tmp/try_mut_${ID}_$3.log
 git -C $W checkout -- .
 echo "check $ID rc=$rc"; grep -E "^VIOLATION|^UNDECIDED|refuted|KNOWN" /tmp/try_mut_$ID.log | cut -c1-400
